@@ -4,6 +4,7 @@
 //! ever is reported instead of performed).
 //!   mk <pipe|stream|dgram|opath> <nonblock 0|1> <full 0|1>
 //!   reg <own|raw> <sig>      raise <n>      drain      unreg      final
+//!   fd0                      move the write end to descriptor 0
 //!   eintr-close              the next close() the library makes releases the descriptor and answers EINTR
 use crate::common::*;
 use signal_hook_registry::verif_shim as shim;
@@ -188,6 +189,16 @@ fn run_child(ops: &[String]) {
                     total += r as i64;
                 }
                 println!("bytes={}", total);
+            }
+            // the write end becomes descriptor 0 (a process that closed its stdin gets 0 from its next pipe()/dup())
+            ["fd0"] => {
+                unsafe {
+                    libc::dup2(wfd, 0);
+                    libc::close(wfd);
+                }
+                wfd = 0;
+                *FDS.lock().unwrap() = (rfd, wfd);
+                println!("ok");
             }
             ["eintr-close"] => {
                 EINTR_CLOSE.store(true, std::sync::atomic::Ordering::SeqCst);
